@@ -197,6 +197,11 @@ func (sc *scenario) apply(ev int) {
 			}
 		}
 	}
+	if sc.algo == "prophet" && ev != evTick {
+		// a peer only becomes an attractive relay again once its summary vector has arrived, which the harness
+		// delivers right after the appearance: the next retry tick is the opportunity that counts
+		opportunity = false
+	}
 	sc.check(opportunity)
 }
 
@@ -434,7 +439,7 @@ func TestCheck(t *testing.T) {
 	}
 	d := r.Pick(3, 4)
 	enumerate("exh-epidemic-rx", "epidemic", []int{evUpA, evRxFromA}, d)
-	enumerate("exh-epidemic-submit", "epidemic", []int{evSubmit}, d)
+	enumerate("exh-epidemic-submit", "epidemic", []int{evSubmit}, d-1)
 	if r.Thorough() {
 		for _, a := range algos[1:] {
 			enumerate("exh-"+a+"-rx", a, []int{evUpA, evRxFromA}, 3)
@@ -445,7 +450,7 @@ func TestCheck(t *testing.T) {
 
 	for _, a := range algos {
 		a := a
-		r.Group("random-"+a, r.Pick(150, 3000), func(i int, rng *report.Rand) {
+		r.Group("random-"+a, r.Pick(80, 3000), func(i int, rng *report.Rand) {
 			n := 6 + rng.Intn(20)
 			evs := make([]int, n)
 			for k := range evs {
@@ -464,7 +469,7 @@ func TestCheck(t *testing.T) {
 
 	for _, a := range []string{"epidemic", "prophet", "spray"} {
 		a := a
-		r.Group("coincidence-"+a, r.Pick(170, 1700), func(i int, rng *report.Rand) {
+		r.Group("coincidence-"+a, r.Pick(60, 1700), func(i int, rng *report.Rand) {
 			if err := coincidence(r, a, i); err != nil {
 				r.Violation("c13.node-deadlock-or-panic", err.Error(), map[string]interface{}{"algorithm": a, "workload": "coincidence"})
 			}
